@@ -333,6 +333,7 @@ Proof.
       - constructor; [eapply tfront_ok_mono; eauto|exact J3].
       - congruence.
       - cbn [map]. rewrite J5. reflexivity. }
+    destruct (owned_by_other st (t_cluster t) (t_addr t)); [discriminate|].
     destruct (known_proto st (t_addr t)) as [p|] eqn:Ek.
     + destruct (inv_known st I _ _ Ek) as [Hp [l [Hl Ha]]].
       destruct ((p =? 0) || (p =? 1)) eqn:E01; [discriminate|].
@@ -374,7 +375,8 @@ Lemma populate_cluster_Inv : forall d c st st', populate_cluster d c st = Ok st'
   exists cc, ls_clusters st' = ls_clusters st ++ [cc] /\ cluster_ok st' cc
     /\ ls_routes st' = ls_routes st ++ map fkey (map fst (cc_hfronts cc))
     /\ (NoDup (ls_routes st) -> NoDup (ls_routes st'))
-    /\ NoDup (map tkey (cc_tfronts cc)) /\ NoDup (map bkey (cc_backs cc)).
+    /\ NoDup (map tkey (cc_tfronts cc)) /\ NoDup (map bkey (cc_backs cc))
+    /\ Forall (fun t => t_cluster t = cd_id c /\ owned_by_other st (cd_id c) (t_addr t) = false) (cc_tfronts cc).
 Proof.
   intros d c st st' H I. unfold populate_cluster in H.
   destruct (negb (hc_valid (build_clu c (-1)))); [discriminate|].
@@ -385,6 +387,8 @@ Proof.
     destruct (resolve_tcp d ts st) as [[ts' st1]|e] eqn:E2; [|discriminate].
     inversion H; subst.
     pose proof (resolve_tcp_addrs _ _ _ _ _ E2) as (_ & _ & Cl).
+    pose proof (resolve_tcp_unowned _ _ _ _ _ E2) as Un.
+    pose proof (tcp_fronts_conv_addrs _ _ _ _ _ _ _ E1) as [_ Cid].
     destruct (resolve_tcp_Inv _ _ _ _ _ E2 I) as (J1 & J2 & J3 & J4 & J5).
     apply tcp_fronts_conv_nodup in E1 as [N1 _].
     split; [eapply Inv_ext; [apply same_add_cluster|exact J1]|].
@@ -398,6 +402,11 @@ Proof.
     + apply (NoDup_map_coarser tkey tkey0); [|now rewrite J5].
       intros x y E. unfold tkey in E. unfold tkey0. inversion E. reflexivity.
     + exact Eb.
+    + apply Forall_forall. intros t' Ht'.
+      assert (Hk : In (tkey0 t') (map tkey0 ts)) by (rewrite <- J5; now apply in_map).
+      apply in_map_iff in Hk as [t0 [Ek Ht0]]. unfold tkey0 in Ek. inversion Ek as [[Ec Ea]].
+      rewrite Forall_forall in Un, Cid. pose proof (Un t0 Ht0) as U0. cbv beta in U0. rewrite (Cid t0 Ht0) in U0, Ec.
+      split; [exact (Cid t0 Ht0)|exact U0].
   - destruct (http_fronts_conv (cd_id c) (cd_fronts c)) as [fs|e] eqn:E1; [|discriminate].
     destruct (resolve_http d fs st) as [[fs' st1]|e] eqn:E2; [|discriminate].
     inversion H; subst.
@@ -413,6 +422,17 @@ Proof.
     + exact J5.
     + constructor.
     + exact Eb.
+    + constructor.
+Qed.
+
+Lemma owned_by_other_false : forall st cid a, owned_by_other st cid a = false ->
+  forall t, In t (flat_map cc_tfronts (ls_clusters st)) -> t_addr t = a -> t_cluster t = cid.
+Proof.
+  intros st cid a H t Ht Ea. destruct (bytes_eqb (t_cluster t) cid) eqn:Ec; [now apply bytes_eqb_eq|].
+  apply in_flat_map in Ht as [cc [Hcc Ht]].
+  assert (owned_by_other st cid a = true); [|congruence].
+  unfold owned_by_other. apply existsb_exists. exists cc. split; [exact Hcc|].
+  apply existsb_exists. exists t. split; [exact Ht|]. rewrite Ec. cbn [negb]. rewrite andb_true_r. now apply bytes_eqb_eq.
 Qed.
 
 (** the accumulated clusters *)
@@ -421,7 +441,8 @@ Record Acc (st : lstate) : Prop := mk_Acc {
   acc_routes : ls_routes st = map fkey (map fst (flat_map cc_hfronts (ls_clusters st)));
   acc_routes_nodup : NoDup (ls_routes st);
   acc_tkeys : Forall (fun cc => NoDup (map tkey (cc_tfronts cc))) (ls_clusters st);
-  acc_bkeys : Forall (fun cc => NoDup (map bkey (cc_backs cc))) (ls_clusters st) }.
+  acc_bkeys : Forall (fun cc => NoDup (map bkey (cc_backs cc))) (ls_clusters st);
+  acc_owner : OneOwner (flat_map cc_tfronts (ls_clusters st)) }.
 
 Lemma cluster_ok_mono : forall st st' cc, mono st st' -> cluster_ok st cc -> cluster_ok st' cc.
 Proof.
@@ -436,8 +457,8 @@ Proof.
   intros d cs; induction cs as [|c cs IH]; intros st st' H I A; cbn [populate_clusters] in H.
   - inversion H; subst. now split.
   - destruct (populate_cluster d c st) as [st1|e] eqn:E; [|discriminate].
-    destruct (populate_cluster_Inv _ _ _ _ E I) as (I1 & M1 & cc & C1 & C2 & C3 & C4 & C5 & C6).
-    destruct A as [A1 A2 A3 A4 A5].
+    destruct (populate_cluster_Inv _ _ _ _ E I) as (I1 & M1 & cc & C1 & C2 & C3 & C4 & C5 & C6 & C7).
+    destruct A as [A1 A2 A3 A4 A5 A6].
     apply (IH st1 st' H I1). constructor.
     + rewrite C1. apply Forall_app. split; [|now constructor].
       eapply Forall_impl; [|exact A1]. intros x. now apply cluster_ok_mono.
@@ -445,6 +466,12 @@ Proof.
     + now apply C4.
     + rewrite C1. apply Forall_app. split; [exact A4|now constructor].
     + rewrite C1. apply Forall_app. split; [exact A5|now constructor].
+    + rewrite C1, flat_map_app. cbn [flat_map]. rewrite app_nil_r. rewrite Forall_forall in C7.
+      intros a b Ha Hb Eab. apply in_app_or in Ha, Hb. destruct Ha as [Ha|Ha], Hb as [Hb|Hb].
+      * now apply A6.
+      * destruct (C7 b Hb) as [Cb Ub]. rewrite Cb. eapply owned_by_other_false; eauto.
+      * destruct (C7 a Ha) as [Ca Ua]. rewrite Ca. symmetry. eapply owned_by_other_false; eauto.
+      * destruct (C7 a Ha) as [Ca _], (C7 b Hb) as [Cb _]. congruence.
 Qed.
 
 (** * the theorems at the level of [load_in] *)
@@ -475,7 +502,7 @@ Proof.
   intros d order cf H. apply load_in_inv in H as (_ & _ & st & st' & E1 & E2 & _ & _ & E).
   destruct (populate_listeners_Inv _ _ _ _ E1 Inv_empty) as [I1 R1].
   pose proof (populate_listeners_clusters _ _ _ _ E1) as C1. cbn [ls_clusters ls_routes] in R1, C1.
-  assert (A1 : Acc st) by (constructor; rewrite ?C1, ?R1; cbn; constructor).
+  assert (A1 : Acc st) by (constructor; rewrite ?C1, ?R1; cbn; try constructor; intros a b []).
   destruct (populate_clusters_Inv _ _ _ _ E2 I1 A1) as [I2 A2].
   exists st'. subst cf. cbn. exact (conj I2 (conj A2 (conj eq_refl (conj eq_refl (conj eq_refl (conj eq_refl eq_refl)))))).
 Qed.
@@ -483,7 +510,7 @@ Qed.
 Lemma load_in_fronts_on_listeners : forall d order cf, load_in d order = Ok cf -> fronts_on_listeners cf.
 Proof.
   intros d order cf H. destruct (load_in_final _ _ _ H) as (st' & I & A & E0 & E1 & E2 & E3 & Ec).
-  intros cc Hcc. rewrite Ec in Hcc. destruct A as [A1 _ _ _ _]. rewrite Forall_forall in A1.
+  intros cc Hcc. rewrite Ec in Hcc. destruct A as [A1 _ _ _ _ _]. rewrite Forall_forall in A1.
   destruct (A1 cc Hcc) as [F1 F2]. rewrite Forall_forall in F1, F2. split.
   - intros x Hx. destruct (F1 x Hx) as [l [Hl Ha]]. exists l.
     destruct (f_https (fst x)); unfold lists_of in Hl; cbn in Hl; rewrite ?E0, ?E1; repeat split; try assumption.
@@ -510,7 +537,7 @@ Proof.
     { clear -M. induction M as [|cd cc cds ccs Hm _ IH]; [reflexivity|]. cbn [map]. now rewrite IH, (cluster_matches_id _ _ Hm). }
     rewrite E. eapply Permutation_NoDup; [apply Permutation_map; apply Permutation_sym; exact P|].
     unfold parses in Hp. apply andb_true_iff in Hp as [_ Hp]. now apply nodup_bytes_NoDup. }
-  destruct A as [A1 A2 A3 A4 A5]. rewrite <- Ec in *.
+  destruct A as [A1 A2 A3 A4 A5 A6]. rewrite <- Ec in *.
   unfold KeysOk. repeat split.
   - (* listeners *)
     unfold all_listeners. rewrite E0, E1, E2, E3.
@@ -537,4 +564,5 @@ Proof.
       cbn [build_backends In] in Hb. destruct Hb as [Hb|Hb]; [now subst|now apply (IHb (i + 1)%N)].
   - (* health checks *)
     clear -M. induction M as [|cd cc cds ccs Hm _ IH]; constructor; [apply Hm|exact IH].
+  - (* one cluster per TCP/UDP address *) exact A6.
 Qed.
